@@ -208,8 +208,8 @@ REGISTRY = {
                     "deriving from a parametrised base (concrete, by the child's TypeVar, with a reused TypeVar name); two parametrisations per class used "
                     "interleaved on one converter; per parametrisation: unstructure, structure, structure of a corrupted payload, each compared with the "
                     "hand-substituted non-generic clone; non-trivial = class with >= 2 attributes; distinct = (class, parametrisation, round)"},
-    "C10": {"props_file": "Props/C10.v", "files": CORE_TPL + ["Props/C10.v"], "run": _c10, "t1_sections": ["gen"],
-            "rule": RULE_TPL + " ; PLUS tagged unions (oracle only): 2-4 members x tag generator x tag name x default member or none x forbid on/off x validation mode; payloads = a member's "
+    "C10": {"props_file": "Props/C10.v", "files": CORE_TPL + ["Model/Tagged.v", "Proofs/TaggedProofs.v", "Props/C10.v"], "run": _c10, "t1_sections": ["gen"],
+            "rule": RULE_TPL + " ; PLUS the systematic key-modes battery (attribute kind x key mode x forbid x 21 payloads, no randomness) ; PLUS tagged unions (oracle only): 2-4 members x tag generator x tag name x default member or none x forbid on/off x validation mode; payloads = a member's "
                     "own dict + the tag (known / unknown / missing) + a known set of 0-2 extra keys, key order reversed half of the time, at top level, inside List[U] and inside an attrs class attribute"},
     "C07": {"props_file": "Props/C07.v", "files": CORE_A + ["Props/C07.v"], "run": _c07, "rule": RULE_DISP},
     "C08": {"props_file": "Props/C08.v", "files": CORE_A + ["Props/C08.v"], "run": _c08, "rule": RULE_DISP},
